@@ -104,6 +104,10 @@ type PyItem struct {
 	Methods []PyFunc `json:"methods"`
 	Params  []string `json:"params"`
 	Nested  []string `json:"nested"`
+	// In/At: a class written INSIDE the class named In, after that class's first At methods (a class of the module all
+	// the same: listed under its own name with its own methods)
+	In string `json:"in"`
+	At int    `json:"at"`
 }
 
 // File: one source file. Go uses pkg/imports/decls/style, Python uses items/style.
